@@ -43,6 +43,11 @@ PLAN = {
     "C15": [item("h_symbol", "c15_huffman", 800_000, 24_000_000, max_len=(2048, 16384))],
     "C16": [item("h_symbol", "c16_bits", 2_400_000, 64_000_000, param=16, max_len=(1024, 8192))],
     "C17": [item("h_symbol", "c17_backends", 2_400_000, 64_000_000, max_len=(1024, 8192))],
+    "C18": [
+        item("h_stream", "ans_sizes", 1_200_000, 32_000_000, max_len=(1024, 8192)),
+        item("h_stream", "range_msg", 1_200_000, 32_000_000, param=18, max_len=(1024, 16384)),
+        item("h_symbol", "c16_bits", 800_000, 24_000_000, param=18, max_len=(1024, 8192)),
+    ],
 }
 
 CHAIN_GRID = ("chain-coder grid (Word/State: precisions, switchable by change_precision): u8/u16: 8,3,1; u8/u32: 8,5,1; u8/u64: 8,4; "
@@ -119,6 +124,12 @@ RULES = {
            "is_full / maybe_full compared with the model AND with the number of reads / writes that actually succeed on a clone, "
            "into_reversed (any number of times), reads through as_view() / cloned(), reads after end of data}); the reference is one "
            "logical cursor (buf, pos) whose physical pos/buf are mirrored by each reversal; non-trivial = script of >= 5 ops",
+    "C18": "sizes: ANS push/pop histories (start new | from_compressed | from_binary) probed after every step: num_words / num_bits / "
+           "is_empty vs the export of a clone, num_valid_bits vs the payload bits of the export (and vs the data size after from_binary), "
+           "maybe_exhausted vs emptiness / whole words in bulk; range encoder probed after every symbol (also while words are held back), "
+           "range decoder stopped after a generated number of symbols (exhausted at the end, not exhausted with whole words unread); "
+           "bit-level stack / queue coders: len / is_empty vs the bit model, queue decoder exhaustion; model diagnostics: see the "
+           "c18_diag target; " + GRID + "; non-trivial = probe with non-empty bulk (ANS) / >= 1 renormalisation (range) / >= 2 words of bits",
 }
 
 LEVEL_TEXT = {
@@ -135,6 +146,7 @@ LEVEL_TEXT = {
     "C15": "property-based search over weight vectors with a reference construction, exhaustive-optimum oracle for small alphabets and validity predicates",
     "C16": "stateful model-based property-based search over bit-coder scripts against a Vec<bool> model and the documented word packing",
     "C17": "stateful model-based property-based search over backend op scripts against a logical-cursor reference model",
+    "C18": "stateful property-based search probing every size / emptiness / exhaustion query against the export of a clone at every step",
 }
 
 TECHNIQUE = {
@@ -151,4 +163,5 @@ TECHNIQUE = {
     "C15": "property-based testing with reference model (textbook Huffman + exhaustive optimum) and validity predicates",
     "C16": "stateful model-based property-based testing (op scripts vs Vec<bool> reference)",
     "C17": "stateful model-based property-based testing (op scripts vs logical-cursor model)",
+    "C18": "stateful property-based testing with an invariant probe after every step (query == length of the export of a clone)",
 }
